@@ -378,8 +378,18 @@ class Ctx:
             self.report("%s:forbidden-construct" % self.prop, "forbidden construct in Coq sources",
                         {"kind": "broken-obligation", "hits": hits}, found_input=False)
             return False
-        ok, log = coq_make()
+        # every Gen/*.v is regenerated from /repo's working tree before anything is compiled
+        from . import gen_all
+        try:
+            self.extra["regenerated"] = gen_all.regenerate_all()
+        except Exception as ex:
+            self.report("%s:translator-crash" % self.prop, "a translator could not read the source: %r" % ex,
+                        {"kind": "broken-obligation", "exception": repr(ex)}, found_input=False)
+            return False
         files = [os.path.join("theories", self.prop, "Props.v")] + list(extra_props)
+        # build only this property's dependency closure: a broken obligation of another
+        # property must not raise an alarm here
+        ok, log = coq_make(targets=[f[:-2] + ".vo" for f in files] + ["theories/Base/RegexCheck.vo"])
         total = 0
         done = 0
         failed = []
